@@ -451,6 +451,9 @@ func (c *trCtx) leanTypeIsOpaque(ty types.Type) string {
 	if !ok {
 		return ""
 	}
+	if n, ok := p.Elem().(*types.Named); ok && n.Obj().Pkg() != nil && strings.HasPrefix(n.Obj().Pkg().Path(), trKnutPath+"lib/syntax") {
+		return "" // Ref: never compared
+	}
 	if n, ok := trUnalias(p.Elem()).(*types.Named); ok && n.Obj().Pkg() != nil {
 		return trOpaque["*"+n.Obj().Pkg().Path()+"."+n.Obj().Name()]
 	}
